@@ -219,9 +219,9 @@ func (r *Report) finish(verifDir string, known []KnownFinding) int {
 	}
 	sort.Strings(ruleNames)
 	cov := map[string]interface{}{
-		"explanation": r.Explanation,
-		"not_decided": r.NotDecided,
-		"evaluations": len(r.Obls),
+		"explanation":         r.Explanation,
+		"not_decided":         r.NotDecided,
+		"evaluations":         len(r.Obls),
 		"distinct_nontrivial": nontrivial,
 		"rule": "one obligation per (rule, construct) instance discovered in /repo's current sources; distinct = distinct rule/construct keys; " +
 			"non-trivial = decided by a path, lockset, origin or table-agreement argument (not a mere presence test). Rules: " + strings.Join(ruleNames, ", "),
